@@ -138,7 +138,7 @@ class World:
         if op in ('set_color', 'set_power', 'set_zone_color', 'set_tile'):
             self.trace.append(('cmd',) + tuple(entry))
         elif op == 'get_color':
-            self.trace.append(('get', label))
+            self.trace.append(('get', label, list(entry[2])))
 
     def compile(self, text):
         return ScriptJob.from_string(text)
